@@ -312,7 +312,9 @@ def monC06 (h : Hist) : Option String :=
       let x ← h.ex ri
       if x.res.kind != "resp" then none else
       let st := x.res.status
-      let clientConditional := Header.has ri.req.header sIfNoneMatch || Header.has ri.req.header sIfModifiedSince
+      -- a precondition field whose lines are all empty or white space carries no precondition (trimmed on the wire)
+      let hasValue (n : Str) : Bool := (Header.values ri.req.header n).any fun v => !(trimString v).isEmpty
+      let clientConditional := hasValue sIfNoneMatch || hasValue sIfModifiedSince
       if x.fromStore && x.fgCalls.isEmpty && (st < 200 || st = 206 || st = 304) then
         some s!"exchange {ri.n}: status {st} served from the store"
       else if st = 304 && !clientConditional && isPlainGet ri then
